@@ -86,7 +86,7 @@ def _build(name):
     exe = cbuild.compile(b, "drv_c07", [os.path.join(cbuild.CSRC, "drv_c07.c"),
                                         os.path.join(cbuild.FW, "layer1/rfch.c"),
                                         os.path.join(cbuild.LIBOSMO, "src/gsm/gsm_utils.c")],
-                         cbuild.firmware_flags(b))
+                         cbuild.firmware_flags(b), opt="-O2")
     return b, exe
 
 
